@@ -18,7 +18,8 @@ META = {
     "require": {t: ["class:ndims=0", "class:ndims=3", "class:ndims=4", "class:axes=3", "class:common=outside",
                     "class:shape=inferred", "class:shape=explicit", "class:n=0", "class:big_extent",
                     "cells:common_coords=0", "cells:common_coords=1", "cells:common_coords=2", "cells:common_coords>=3",
-                    "cells:reconstructed_nonzero"] for t in ("quick", "thorough")},
+                    "cells:reconstructed_nonzero", "class:edited_in_place_then_recounted", "class:n>2^24"]
+                for t in ("quick", "thorough")},
     "assumptions": ["category codes are 0..extent-1 (what a cube requires); an explicit shape covers every value and "
                     "the common value"],
 }
@@ -26,12 +27,37 @@ META = {
 
 def shards(tier):
     if tier == "quick":
-        return [{"label": "cubes%d" % i, "n": 900} for i in range(12)] + [{"label": "big", "n": 16, "big": True}]
-    return [{"label": "cubes%d" % i, "n": 70000} for i in range(15)] + [{"label": "big", "n": 600, "big": True}]
+        return [{"label": "cubes%d" % i, "n": 900} for i in range(12)] + [{"label": "big", "n": 16, "big": True},
+                                                                          {"label": "huge", "n": 2, "huge": True, "mem_gib": 12}]
+    return [{"label": "cubes%d" % i, "n": 70000} for i in range(15)] + [{"label": "big", "n": 600, "big": True},
+                                                                             {"label": "huge", "n": 8, "huge": True, "mem_gib": 12}]
+
+
+def huge_case(rng):
+    """More than 2^24 rows (where single precision stops holding every integer), very sparse."""
+    n = 2 ** 24 + int(rng.integers(1, 9)) * 2 + 1
+    ndims = int(rng.integers(1, 3))
+    dense, commons, extents = [], [], []
+    for d in range(ndims):
+        ext = int(rng.integers(2, 4))
+        a = numpy.zeros(n, dtype=numpy.int64)
+        rows = rng.choice(n, size=int(rng.integers(3, 40)), replace=False)
+        a[rows] = rng.integers(1, ext, size=len(rows))
+        dense.append(a)
+        commons.append(0)
+        extents.append(ext)
+    return {"dense": dense, "commons": commons, "shape": None, "extents": extents, "huge": True}
 
 
 def cases(ctx):
     rng = ctx.rng
+    if ctx.shard.get("huge"):
+        for i in range(ctx.shard["n"]):
+            c = huge_case(rng)
+            c["rma"] = [NaN, (0, False)][i % 2]
+            c["edit_seed"] = None
+            yield c
+        return
     for i in range(ctx.shard["n"]):
         if ctx.shard.get("big"):
             c = gen.cube_case(rng, ndims=int(rng.integers(1, 3)), n=gen.pick(rng, [5, 60, 300]), max_axes=1,
@@ -39,6 +65,7 @@ def cases(ctx):
         else:
             c = gen.cube_case(rng, n=2000 if rng.random() < 0.01 else None)
         c["rma"] = gen.pick(rng, [NaN, NaN, (0, False), (-1, False), (7, False)])
+        c["edit_seed"] = int(rng.integers(0, 2 ** 31)) if rng.random() < 0.35 else None
         yield c
 
 
@@ -82,7 +109,7 @@ def judge(ctx, case):
     ctx.count("class:ndims=%d" % len(dense))
     for d in dense:
         ctx.count("class:axes=%d" % d.ndim)
-    ctx.count("class:n=0" if n == 0 else "class:n>0")
+    ctx.count("class:n=0" if n == 0 else ("class:n>2^24" if n > 2 ** 24 else "class:n>0"))
     ctx.count("class:shape=" + ("explicit" if shape is not None else "inferred"))
     for c, e in zip(commons, case["extents"]):
         ctx.count("class:common=" + ("outside" if c >= e else "inside"))
@@ -122,6 +149,34 @@ def judge(ctx, case):
     if ctx.evals % 293 == 1:
         ctx.sample({"dense": dense, "commons": commons, "shape": shape, "return_missing_as": repr(rma)})
     bad = oracles.compare(res, rma, ref_v, ref_m, 0.0)
+    feat = "ndims=%d,axes=%s" % (len(dense), max([d.ndim for d in dense] + [0]))
     if bad:
-        feat = "ndims=%d,axes=%s" % (len(dense), max([d.ndim for d in dense] + [0]))
         ctx.violation("count:%s:%s" % (bad[0], feat), bad[1], case)
+        return
+    # The dimensions are ordinary mutable indexes: after cells of one of them are re-assigned in place
+    # (between categories that stay inside the cube's extents) a new cube over the same objects must
+    # count the new data.
+    if dense and n and case.get("edit_seed") is not None:
+        r2 = numpy.random.default_rng(case["edit_seed"])
+        d = int(r2.integers(0, len(dense)))
+        a = dense[d].copy()
+        present = numpy.unique(a).tolist()
+        ncell = int(r2.integers(1, 4))
+        flat = r2.choice(a.size, size=min(ncell, a.size), replace=False)
+        groups = {}
+        for f in flat:
+            cell = tuple(int(i) for i in numpy.unravel_index(int(f), a.shape))
+            v = int(present[int(r2.integers(0, len(present)))])
+            a[cell] = v
+            groups.setdefault((v,) + cell[1:], []).append(cell[0])
+        dims[d].update({k: numpy.array(sorted(rows), dtype=numpy.uint32) for k, rows in groups.items()})
+        dense2 = list(dense)
+        dense2[d] = a
+        ctx.count("class:edited_in_place_then_recounted")
+        res2 = catii.ccube(dims, interacting_shape=exp_shape).count(return_missing_as=rma)
+        ref_v2, ref_m2 = oracles.reference("count", dense2, exp_shape, n)
+        bad = oracles.compare(res2, rma, ref_v2, ref_m2, 0.0)
+        ctx.evaluation({"d": dense2, "c": commons, "s": shape, "r": repr(rma), "edited": True}, len(dense) >= 2)
+        if bad:
+            ctx.violation("count-after-in-place-update:%s:%s" % (bad[0], feat),
+                          "after update() of dimension %d a new cube over the same index objects: %s" % (d, bad[1]), case)
